@@ -1,2 +1,166 @@
+// allocsim scenarios with a stateful allocator: every block must go back to an allocator equal to the one it
+// came from, with the size it was requested with (last sentence of C19) — also when an allocation fails.
 #include "scn.hpp"
-namespace allocsim { void register_stateful(std::vector<Reg>&) {} }
+#include <jsoncons/json.hpp>
+#include <jsoncons_ext/cbor/cbor.hpp>
+#include <jsoncons_ext/msgpack/msgpack.hpp>
+#include <jsoncons_ext/jsonpointer/jsonpointer.hpp>
+#include <cstdlib>
+#include <map>
+#include <scoped_allocator>
+#include <sstream>
+
+using namespace jsoncons;
+using sim::MVal;
+
+namespace allocsim {
+
+// ---- registry of blocks handed out by SimAlloc (kept off the ledger: malloc-backed map)
+template <class T> struct MallocAlloc {
+    using value_type = T;
+    MallocAlloc() = default;
+    template <class U> MallocAlloc(const MallocAlloc<U>&) {}
+    T* allocate(size_t n) { return static_cast<T*>(std::malloc(n * sizeof(T))); }
+    void deallocate(T* p, size_t) { std::free(p); }
+    template <class U> bool operator==(const MallocAlloc<U>&) const { return true; }
+    template <class U> bool operator!=(const MallocAlloc<U>&) const { return false; }
+};
+struct Block { int id; size_t bytes; };
+using Registry = std::map<void*, Block, std::less<void*>, MallocAlloc<std::pair<void* const, Block>>>;
+static Registry& registry() { static Registry* r = new (std::malloc(sizeof(Registry))) Registry(); return *r; }
+static uint64_t g_wrong_alloc = 0, g_wrong_size = 0, g_unknown = 0;
+static char g_first[200];
+
+template <class T> struct SimAlloc {
+    using value_type = T;
+    using propagate_on_container_copy_assignment = std::false_type;
+    using propagate_on_container_move_assignment = std::true_type;
+    using propagate_on_container_swap = std::true_type;
+    using is_always_equal = std::false_type;
+    int id;
+    SimAlloc() = delete;
+    explicit SimAlloc(int i) noexcept : id(i) {}
+    template <class U> SimAlloc(const SimAlloc<U>& o) noexcept : id(o.id) {}
+    T* allocate(size_t n) {
+        T* p = static_cast<T*>(::operator new(n * sizeof(T)));   // counted, and failed, by the ledger
+        registry()[p] = Block{id, n * sizeof(T)};
+        return p;
+    }
+    void deallocate(T* p, size_t n) noexcept {
+        auto it = registry().find(p);
+        if (it == registry().end()) { if (!g_unknown++) snprintf(g_first, sizeof g_first, "pointer never handed out by a SimAlloc returned to allocator %d", id); }
+        else {
+            if (it->second.id != id && !g_wrong_alloc++) snprintf(g_first, sizeof g_first, "block of %zu bytes obtained from allocator %d returned to allocator %d", it->second.bytes, it->second.id, id);
+            if (it->second.bytes != n * sizeof(T) && !g_wrong_size++) snprintf(g_first, sizeof g_first, "block requested with %zu bytes returned with %zu bytes (allocator %d)", it->second.bytes, n * sizeof(T), id);
+            registry().erase(it);
+        }
+        ::operator delete(p);
+    }
+    template <class U> bool operator==(const SimAlloc<U>& o) const noexcept { return id == o.id; }
+    template <class U> bool operator!=(const SimAlloc<U>& o) const noexcept { return id != o.id; }
+};
+
+template <class T> using Scoped = std::scoped_allocator_adaptor<SimAlloc<T>>;
+using cjson = basic_json<char, sorted_policy, Scoped<char>>;
+using cojson = basic_json<char, ordered_policy, Scoped<char>>;
+
+template <class J> static std::string text(const J& j) { std::string s; j.dump(s); return s; }
+
+struct StatefulBase : Scenario {
+    uint64_t w0 = 0, s0 = 0, u0 = 0; size_t live0 = 0;
+    void mark() { w0 = g_wrong_alloc; s0 = g_wrong_size; u0 = g_unknown; g_first[0] = 0; }
+    std::string verdict() {
+        if (g_wrong_alloc != w0 || g_wrong_size != s0 || g_unknown != u0) return std::string("stateful allocator contract broken: ") + g_first;
+        return "";
+    }
+};
+
+template <class J> static J parse_with(const std::string& text_, const Scoped<char>& res, const Scoped<char>& tmp) {
+    json_decoder<J, Scoped<char>> decoder(res, tmp);
+    basic_json_reader<char, chars_source<char>, Scoped<char>> reader(text_, decoder, tmp);
+    reader.read();
+    return decoder.get_result();
+}
+
+template <class J> struct SParse : StatefulBase {
+    std::string doc;
+    void setup(const MVal& p) override { doc = sim::plan_text(p, "doc"); mark(); }
+    std::string run() override { Scoped<char> a1(1), a2(2); J j = parse_with<J>(doc, a1, a2); return text(j); }
+    std::string check(bool) override { return verdict(); }
+};
+
+template <class J> struct SCopyAssign : StatefulBase {
+    std::string d1, d2, op;
+    void setup(const MVal& p) override { d1 = sim::plan_text(p, "doc"); d2 = sim::plan_text(p, "doc2"); op = p.gets("op"); mark(); }
+    std::string run() override {
+        Scoped<char> a1(1), a2(2), t(3);
+        J x = parse_with<J>(d1, a1, t);
+        J y = parse_with<J>(d2, a2, t);
+        if (op == "copy_same") { J c(x); return text(c); }
+        if (op == "copy_other_alloc") { J c(x, a2); return text(c); }
+        if (op == "move_other_alloc") { J c(std::move(x), a2); return text(c); }
+        if (op == "assign") { x = y; return text(x) + text(y); }
+        if (op == "move_assign") { x = std::move(y); return text(x); }
+        if (op == "swap") { x.swap(y); return text(x) + text(y); }
+        if (op == "assign_self_alloc") { J z = parse_with<J>(d2, a1, t); x = z; return text(x); }
+        return "";
+    }
+    std::string check(bool) override { return verdict(); }
+};
+
+template <class J> struct SMutate : StatefulBase {
+    std::string d1, d2, op;
+    void setup(const MVal& p) override { d1 = sim::plan_text(p, "doc"); d2 = sim::plan_text(p, "doc2"); op = p.gets("op"); mark(); }
+    std::string run() override {
+        Scoped<char> a1(1), a2(2), t(3);
+        J x = parse_with<J>(d1, a1, t);
+        J y = parse_with<J>(d2, a2, t);     // value living in a different allocator
+        if (x.is_array()) {
+            if (op == "insert_foreign") x.push_back(y);
+            else if (op == "insert_move") x.push_back(std::move(y));
+            else if (op == "emplace") x.emplace_back("a string long enough to need the heap, yes");
+            else { x.reserve(x.size() + 20); x.insert(x.array_range().begin(), y); }
+        } else if (x.is_object()) {
+            if (op == "insert_foreign") x.insert_or_assign("a key that is long enough to need the heap", y);
+            else if (op == "insert_move") x.insert_or_assign("k", std::move(y));
+            else if (op == "emplace") x.try_emplace("another long key for the heap allocator", "a string long enough to need the heap, yes");
+            else { if (y.is_object()) x.merge(y); else x["k2"] = y; }
+        } else x = y;
+        return text(x);
+    }
+    std::string check(bool) override { return verdict(); }
+};
+
+template <class F> struct SBinary : StatefulBase {
+    std::string doc; bool stream = false;
+    void setup(const MVal& p) override { doc = sim::plan_text(p, "doc"); stream = p.gets("op") == "insert_move" || p.gets("op") == "copy_same"; mark(); }
+    std::string run() override {
+        Scoped<char> res(1), tmp(2);
+        auto aset = make_alloc_set(res, tmp);
+        cjson j = parse_with<cjson>(doc, res, tmp);
+        if (stream) { std::stringstream ss; F::enc_stream(aset, j, ss); cjson back = F::dec_stream(aset, ss); return text(back); }
+        std::vector<uint8_t> b; F::enc(aset, j, b); cjson back = F::dec(aset, b); return text(back);
+    }
+    std::string check(bool) override { return verdict(); }
+};
+struct SCbor { template <class A> static void enc(const A& a, const cjson& j, std::vector<uint8_t>& b) { cbor::encode_cbor(a, j, b); }
+               template <class A> static cjson dec(const A& a, const std::vector<uint8_t>& b) { return cbor::decode_cbor<cjson>(a, b); }
+               template <class A> static void enc_stream(const A& a, const cjson& j, std::ostream& os) { cbor::encode_cbor(a, j, os); }
+               template <class A> static cjson dec_stream(const A& a, std::istream& is) { return cbor::decode_cbor<cjson>(a, is); } };
+struct SMsgpack { template <class A> static void enc(const A& a, const cjson& j, std::vector<uint8_t>& b) { msgpack::encode_msgpack(a, j, b); }
+               template <class A> static cjson dec(const A& a, const std::vector<uint8_t>& b) { return msgpack::decode_msgpack<cjson>(a, b); }
+               template <class A> static void enc_stream(const A& a, const cjson& j, std::ostream& os) { msgpack::encode_msgpack(a, j, os); }
+               template <class A> static cjson dec_stream(const A& a, std::istream& is) { return msgpack::decode_msgpack<cjson>(a, is); } };
+
+void register_stateful(std::vector<Reg>& r) {
+    r.push_back({"stateful_parse", maker<SParse<cjson>>, "doc"});
+    r.push_back({"stateful_parse_ojson", maker<SParse<cojson>>, "doc"});
+    r.push_back({"stateful_copy_assign", maker<SCopyAssign<cjson>>, "doc doc2 statefulop"});
+    r.push_back({"stateful_copy_assign_ojson", maker<SCopyAssign<cojson>>, "doc doc2 statefulop"});
+    r.push_back({"stateful_mutate", maker<SMutate<cjson>>, "doc doc2 statefulop"});
+    r.push_back({"stateful_mutate_ojson", maker<SMutate<cojson>>, "doc doc2 statefulop"});
+    r.push_back({"stateful_cbor", maker<SBinary<SCbor>>, "doc statefulop"});
+    r.push_back({"stateful_msgpack", maker<SBinary<SMsgpack>>, "doc statefulop"});
+}
+
+} // namespace allocsim
